@@ -124,6 +124,19 @@ def update_param_state_dict_object(
                 enable_missing_key_check,
             )
         elif hasattr(v, "load_state_dict") and callable(v.load_state_dict):
+            # OptimizerModule.load_state_dict silently skips entries that are absent from the loaded state,
+            # so the missing key check for the tensors held by the module has to happen here.
+            if (
+                enable_missing_key_check
+                and isinstance(v, OptimizerModule)
+                and (
+                    missing_keys := flatten(extract_state_dict_content({k: v})).keys()
+                    - flatten({k: param_state_dict_to_load[k]}).keys()
+                )
+            ):
+                raise KeyError(
+                    f"Keys {sorted(missing_keys)} not found in state dict to load."
+                )
             v.load_state_dict(param_state_dict_to_load[k])
         elif isinstance(v, torch.Tensor):
             v.detach().copy_(param_state_dict_to_load[k])
